@@ -395,6 +395,25 @@ def array_share_designs():
             m.arr = n * E()(p=conn, q=m.c)
             return m
         return b
+    # a concatenation of exactly n parts of UNEQUAL widths onto n elements (the parts are not the shares)
+    def mk_unequal(n, w, widths):
+        def b():
+            T = h.ExternalModule(name="AProbe", port_list=[h.Inout(name="t")], desc="", domain="cc")
+            E = h.ExternalModule(name=f"AElem{w}", port_list=[h.Inout(name="p", width=w), h.Inout(name="q")], desc="", domain="cc")
+            m = h.Module(name="ArrShare")
+            m.bus = h.Signal(width=12)
+            m.c = h.Signal()
+            for k in range(12):
+                m.add(T()(t=m.bus[k]), name=f"t{k}")
+            parts, at = [], 0
+            for wd in widths:
+                parts.append(m.bus[at:at + wd])
+                at += wd + 1
+            m.arr = n * E()(p=h.Concat(*parts), q=m.c)
+            return m
+        return b
+    for n, w, widths in ((2, 2, (1, 3)), (2, 2, (3, 1)), (3, 2, (3, 1, 2)), (2, 3, (2, 4)), (3, 1, (1, 1, 1)), (2, 3, (5, 1))):
+        yield (f"array-share/cat-of-n-unequal-parts/{n}x{w}/{'+'.join(map(str, widths))}", mk_unequal(n, w, widths))
     for cname in list(conns) + ["direct-step2", "direct-step3"]:
         for n, w in ((4, 1), (2, 2), (3, 1), (2, 1)):
             yield (f"array-share/{cname}/{n}x{w}", mk(cname, n, w))
